@@ -29,7 +29,7 @@ const churnJunk = "\xde\xad\xde\xad\xde\xad\xde\xad\xde\xad\xde\xad"
 func churn() {
 	var keep []interface{}
 	js := churnJunk
-	for i := 0; i < 1200; i++ {
+	for i := 0; i < 800; i++ {
 		// pointer-carrying objects of the small size classes (16, 24, 32, 48, 64 bytes) and pointer-free ones
 		k := &SKey{K: js[:8+i%4]}
 		v := &SVal{A: -0x21522153, S: js}
@@ -40,11 +40,15 @@ func churn() {
 		a4 := &[4]*string{st, st, st, st}
 		a6 := &[6]*string{st, st, st, st, st, st}
 		a8 := &[8]*string{st, st, st, st, st, st, st, st}
+		a10 := &[10]*string{st, st, st, st, st, st, st, st, st, st}
+		a12 := &[12]*string{st, st, st, st, st, st, st, st, st, st, st, st}
+		a14 := &[14]*string{st, st, st, st, st, st, st, st, st, st, st, st, st, st}
+		a16 := &[16]*string{st, st, st, st, st, st, st, st, st, st, st, st, st, st, st, st}
 		b := make([]byte, 8+8*(i%8))
 		for j := range b {
 			b[j] = 0xde
 		}
-		keep = append(keep, k, v, p, st, a2, a4, a6, a8, b)
+		keep = append(keep, k, v, p, st, a2, a4, a6, a8, a10, a12, a14, a16, b)
 	}
 	churnRing[churnPos%len(churnRing)] = keep
 	churnPos++
@@ -198,4 +202,8 @@ type SBox struct {
 	I      interface{}
 	After  []string
 	Tail   map[string]*string
+	// fields with the omitzero option (always non-zero here: go1.23's encoding/json ignores the option)
+	Z  SVal   `json:"z,omitzero"`
+	ZP *SPtr  `json:"zp,omitzero"`
+	ZS string `json:"zs,omitzero"`
 }
